@@ -37,7 +37,7 @@ REPS = {
     "t.cantsplit", "t.align.right", "t.style.grid", "t.borders.partial", "t.shading", "t.cellborders.diag",
     "t.cellshading", "t.textdir", "t.appendrow", "t.insertcol0", "t.struct.tcmar",
     "i.size.wh", "i.align.center", "i.alt", "i.fl.tight", "i.fl.topbottom", "i.fr.square", "i.off.xy", "i.setalign.right",
-    "s.size.custom", "s.orient.landscape", "s.margins", "s.grid.chars", "s.header.default", "s.footer.first",
+    "s.size.custom", "s.size.custom.wide", "s.orient.landscape", "s.margins", "s.grid.chars", "s.header.default", "s.footer.first",
     "s.titlepg.on", "s.headerpn",
 }
 CANON_Q = {"c.fpara", "c.tbl.2x2", "c.img.png", "sect"}
